@@ -1523,6 +1523,13 @@ def _encode_host(host: str, validate_host: bool) -> str:
         else:
             # These checks should not happen in the
             # LRU to keep the cache size small
+            if validate_host and sep and (invalid := NOT_REG_NAME.search(zone.lower())):
+                # The zone id is copied verbatim: it must not smuggle
+                # delimiters ("@", "/", "?", "#", ":", ...) into the authority.
+                raise ValueError(
+                    f"Zone id {zone!r} of host {host!r} "
+                    f"cannot contain {invalid.group()!r}"
+                )
             host = ip.compressed
             if ip.version == 6:
                 return f"[{host}%{zone}]" if sep else f"[{host}]"
